@@ -1,5 +1,6 @@
 import CobraModel.Lemmas.Core
 import CobraModel.Lemmas.SplitRange
+import CobraModel.Lemmas.AuxProb
 /-!
 # C01 — the solver always holds exactly the model's flux-balance problem
 
@@ -54,5 +55,34 @@ theorem objective_on_net_fluxes (s : St) (sy : Sync s) (x : Id → Rat) (rs : Li
 
 
 example : Sync demo := demo_good.sync
+
+
+/-! ### the problem as a whole
+
+`AuxM.Net.fba` (lean/CobraModel/Model/AuxProb.lean) is the complete solver problem of a model — both variables of every reaction with the boxes
+of `update_variable_bounds`, one row per metabolite, the objective, the direction; it is compared entry by entry with the raw GLPK problem
+(`harness/auxcorr.py`). -/
+open AuxM in
+/-- `update_variable_bounds`, every combination of finite and infinite bounds: values inside the two boxes give a net flux inside the reaction
+bounds and are both non-negative … -/
+theorem split_boxes_sound (lb ub : EB) (hl : lb ≠ .pinf) (hu : ub ≠ .ninf) (f r : Rat)
+    (hf : inBox (splitBounds lb ub).1 f) (hr : inBox (splitBounds lb ub).2 r) : inBox (lb, ub) (f - r) ∧ 0 ≤ f ∧ 0 ≤ r :=
+  split_sound lb ub hl hu f r hf hr
+
+open AuxM in
+/-- … and the positive and negative part of any net flux inside the reaction bounds lie inside the boxes -/
+theorem split_boxes_complete (lb ub : EB) (v : Rat) (h : inBox (lb, ub) v) :
+    inBox (splitBounds lb ub).1 (max v 0) ∧ inBox (splitBounds lb ub).2 (max (-v) 0) := split_complete lb ub v h
+
+open AuxM in
+/-- **the solver problem is exactly the flux-balance problem**: its feasible points project (`v_i = forward_i − reverse_i`) onto the steady-state,
+in-bounds flux vectors, every such vector is reached, and the objective is the model's objective on the net fluxes -/
+theorem fba_problem_is_flux_balance (n : Net) (hp : n.Proper) :
+    (∀ x, n.fba.Feasible x → n.Feasible (netOf x) ∧ n.fba.value x = n.objVal (netOf x)) ∧
+    (∀ v, n.Feasible v → n.fba.Feasible (splitOf v) ∧ netOf (splitOf v) = v ∧ n.fba.value (splitOf v) = n.objVal v) :=
+  ⟨fun x h => fba_sound n hp x h, fun v hv => fba_complete n v hv⟩
+
+example : AuxM.demoNet.fba.Feasible (AuxM.splitOf AuxM.demoV) :=
+  (AuxM.fba_complete AuxM.demoNet AuxM.demoV ((AuxM.demoNet_feasible _).2 (by simp only [AuxM.demoV]; norm_num))).1
 
 end C01
